@@ -140,16 +140,20 @@ func consumeCell(l klevdb.Log, m *ref.Model, off, max int64) *Fail {
 	if isPanic(err) {
 		return &Fail{Sig: "consume:panic:" + panicFrame(err), What: fmt.Sprintf("Consume(%d,%d) panicked: %v", off, max, err)}
 	}
+	return judgeConsume(m, off, max, next, toRefs(msgsK), errClass(err), errText(err))
+}
+
+// judgeConsume is the acceptance predicate of C03 for one observed Consume result.
+func judgeConsume(m *ref.Model, off, max int64, next int64, msgs []ref.Msg, cls, etext string) *Fail {
 	if off > m.Next {
-		if errClass(err) != "ErrInvalidOffset" {
-			return failf("consume:beyond-next:"+errClass(err), "Consume(%d,%d) with NextOffset=%d: want ErrInvalidOffset, got next=%d n=%d err=%s", off, max, m.Next, next, len(msgsK), errText(err))
+		if cls != "ErrInvalidOffset" {
+			return failf("consume:beyond-next:"+cls, "Consume(%d,%d) with NextOffset=%d: want ErrInvalidOffset, got next=%d n=%d err=%s", off, max, m.Next, next, len(msgs), etext)
 		}
 		return nil
 	}
-	if err != nil {
-		return failf("consume:error:"+errClass(err), "Consume(%d,%d) with NextOffset=%d failed: %s", off, max, m.Next, errText(err))
+	if cls != "nil" {
+		return failf("consume:error:"+cls, "Consume(%d,%d) with NextOffset=%d failed: %s", off, max, m.Next, etext)
 	}
-	msgs := toRefs(msgsK)
 	if off == klevdb.OffsetNewest {
 		if next != m.Next || len(msgs) != 0 {
 			return failf("consume:newest", "Consume(OffsetNewest,%d): want (%d, none) got (%d, %d msgs)", max, m.Next, next, len(msgs))
@@ -257,7 +261,11 @@ func getCell(l klevdb.Log, m *ref.Model, off int64) *Fail {
 	if isPanic(err) {
 		return &Fail{Sig: "get:panic:" + panicFrame(err), What: fmt.Sprintf("Get(%d) panicked: %v", off, err)}
 	}
-	cls := errClass(err)
+	return judgeGet(m, off, toRef(msg), errClass(err), errText(err))
+}
+
+// judgeGet is the acceptance predicate of C04 for one observed Get result.
+func judgeGet(m *ref.Model, off int64, got ref.Msg, cls, etext string) *Fail {
 	switch {
 	case off == klevdb.OffsetOldest || off == klevdb.OffsetNewest:
 		name := "OffsetOldest"
@@ -266,7 +274,7 @@ func getCell(l klevdb.Log, m *ref.Model, off int64) *Fail {
 		}
 		if len(m.Live) == 0 {
 			if cls != "ErrInvalidOffset" {
-				return failf("get:"+name+":empty-log:"+cls, "Get(%s) on a log without live messages: want ErrInvalidOffset, got %s %s", name, cls, errText(err))
+				return failf("get:"+name+":empty-log:"+cls, "Get(%s) on a log without live messages: want ErrInvalidOffset, got %s %s", name, cls, etext)
 			}
 			return nil
 		}
@@ -274,32 +282,32 @@ func getCell(l klevdb.Log, m *ref.Model, off int64) *Fail {
 		if off == klevdb.OffsetNewest {
 			want = m.Live[len(m.Live)-1]
 		}
-		if err != nil {
-			return failf("get:"+name+":"+cls, "Get(%s): want message %d, got error %s", name, want.Offset, errText(err))
+		if cls != "nil" {
+			return failf("get:"+name+":"+cls, "Get(%s): want message %d, got error %s", name, want.Offset, etext)
 		}
-		if !toRef(msg).Equal(want) {
-			return failf("get:"+name+":wrong-message", "Get(%s): want %v got %v", name, want, toRef(msg))
+		if !got.Equal(want) {
+			return failf("get:"+name+":wrong-message", "Get(%s): want %v got %v", name, want, got)
 		}
 		return nil
 	case off < 0:
 		return nil
 	case off >= m.Next:
 		if cls != "ErrInvalidOffset" {
-			return failf("get:unassigned:"+cls, "Get(%d) with NextOffset=%d: want ErrInvalidOffset, got %s %s", off, m.Next, cls, errText(err))
+			return failf("get:unassigned:"+cls, "Get(%d) with NextOffset=%d: want ErrInvalidOffset, got %s %s", off, m.Next, cls, etext)
 		}
 		return nil
 	}
 	if want, ok := m.Get(off); ok {
-		if err != nil {
-			return failf("get:live:"+cls, "Get(%d) of a live message failed: %s", off, errText(err))
+		if cls != "nil" {
+			return failf("get:live:"+cls, "Get(%d) of a live message failed: %s", off, etext)
 		}
-		if !toRef(msg).Equal(want) {
-			return failf("get:live:wrong-message", "Get(%d): want %v got %v", off, want, toRef(msg))
+		if !got.Equal(want) {
+			return failf("get:live:wrong-message", "Get(%d): want %v got %v", off, want, got)
 		}
 		return nil
 	}
 	if cls != "ErrNotFound" {
-		return failf("get:deleted:"+cls, "Get(%d) of an assigned but deleted offset: want ErrNotFound, got %s %s", off, cls, errText(err))
+		return failf("get:deleted:"+cls, "Get(%d) of an assigned but deleted offset: want ErrNotFound, got %s %s", off, cls, etext)
 	}
 	return nil
 }
